@@ -189,7 +189,7 @@ impl Compiler {
         }
 
         Ok(Bytecode {
-            constants: self.constants.clone(),
+            constants: std::mem::take(&mut self.constants),
             instructions: std::mem::take(&mut self.instructions),
         })
     }
